@@ -6,16 +6,16 @@ CHECK = Check(
     props_modules=["OW.Props.C10", "OW.Props.C10Sacramento", "OW.Props.Rounded.C10"],
     families=[
         # arithmetic only (one multiplication): bit-exact
-        Family("K", rtol=None, args=["models=RunoffCoefficient", "prop=C10", "n=150"], label="K-exact"),
+        Family("K", rtol=None, args=["models=RunoffCoefficient", "prop=C10", "n=300"], label="K-exact"),
         # pow / tanh / exp kernels: Go math vs libm differ by <= 3 ulp
-        Family("K", rtol=1e-9, atol_scale=1e-12, args=["models=GR4J,Simhyd,Surm,Sacramento", "prop=C10", "n=250"],
+        Family("K", rtol=1e-9, atol_scale=1e-12, args=["models=GR4J,Simhyd,Surm,Sacramento", "prop=C10", "n=500"],
                label="K-transcendental"),
         # Sacramento in its numerically ill-conditioned wet regime (tiny supplemental store, ~50 increments/day):
         # property oracle only, no 1e-9 comparison (see harness models_rr.go sacParamsWet)
-        Family("KORACLE", compare=False, args=["models=Sacramento", "variant=wet", "prop=C10", "n=150"],
+        Family("KORACLE", compare=False, args=["models=Sacramento", "variant=wet", "prop=C10", "n=300"],
                label="KORACLE-sacramento-wet"),
         # GR4J with a routing store of a few mm and a strongly negative exchange coefficient (chaotic recurrence)
-        Family("KORACLE", compare=False, args=["models=GR4J", "variant=stiff", "prop=C10", "n=150"],
+        Family("KORACLE", compare=False, args=["models=GR4J", "variant=stiff", "prop=C10", "n=300"],
                label="KORACLE-gr4j-stiff"),
     ],
     # tie A: the loop bodies of the arithmetic-only kernels are REGENERATED from the Go source on every run (harness/cmd/owtranslate)
